@@ -58,6 +58,9 @@ TREE_PARAMS = [
 POINTS = [
     (-179.7, 3.0), (179.6, -4.0), (180.0, 20.0), (-180.0, -35.0), (0.0, 0.0), (0.3, 0.1), (-0.2, -0.15), (12.0, 89.5),
     (-100.0, -89.0), (0.0, 90.0), (45.0, 45.0), (170.0, 60.0), (-171.0, 8.0), (95.0, -20.0), (-60.0, -15.0), (20.0, 10.0), (176.0, 10.0),
+    # the same places written in the 0..360 convention: identical under great-circle and chord
+    # metrics, 360 degrees away from their -180..180 twins under the planar (lat, lon) metric
+    (187.4, 8.0), (359.5, -5.0), (270.0, 45.0), (181.0, -30.0), (340.0, 62.0),
 ]
 
 
@@ -128,6 +131,18 @@ class Trees(Profile):
                 if rng.random() < 0.3:
                     q["points"][0] = {"elem": rng.randrange(1000)}  # a query point that IS an element
                 q["in_radians"] = rng.random() < 0.35
+                prev = [o for o in ops if o["op"] in ("query", "radius")]
+                if prev and rng.random() < 0.45:
+                    # the caller reuses the very array object it passed to an earlier query
+                    o = rng.choice(prev)
+                    for kk in ("type", "csys", "metric", "coords"):
+                        if kk in o:
+                            q[kk] = o[kk]
+                        else:
+                            q.pop(kk, None)
+                    q["points"] = o["points"]
+                    q["in_radians"] = o["in_radians"]
+                    q["reuse"] = True
                 if rng.random() < 0.65:
                     q["op"] = "query"
                     q["k"] = rng.choice([1, 1, 2, 3, 5, "n", "n-1"])
@@ -154,6 +169,7 @@ class Trees(Profile):
     def begin(self, W):
         W.last_tree = {}
         W.switched = False
+        W.point_arrays = {}
 
     # ------------------------------------------------------------------
     def step(self, W, i, op):
@@ -318,9 +334,17 @@ class Trees(Profile):
         else:
             arr = np.array([M.unit(lo, la) for lo, la in pts])
         if len(pts) == 1 and op.get("flat", True):
-            arr_in = arr[0]
+            arr = arr[0]
+        # the caller owns the array it passes and may pass the same object again later
+        pkey = (op["type"], csys, inrad, repr(op["points"]))
+        if op.get("reuse") and pkey in W.point_arrays:
+            arr_in = W.point_arrays[pkey]
+            if not np.array_equal(arr_in, arr):
+                return ("points-modified",), [V(sig + "/query-modified-points", i, f"an earlier query changed the caller's point array in place: it now holds {np.round(np.asarray(arr_in).ravel()[:4], 6).tolist()} instead of {np.round(np.asarray(arr).ravel()[:4], 6).tolist()}")]
+            W.fire("points_array_reused")
         else:
-            arr_in = arr
+            arr_in = np.array(arr, dtype=np.float64)
+            W.point_arrays[pkey] = arr_in
         unit_scale = 1.0 if (csys == "cartesian" or inrad) else 180.0 / math.pi  # returned distance unit
         W.cov["judged"] += 1
         if W.switched:
